@@ -352,6 +352,9 @@ func DrawImg(t *rapid.T, cfg ImgCfg) *Img {
 	s.Garbage = rapid.Uint64().Draw(t, "garbage")
 	s.Content = rapid.SampledFrom(contentClasses).Draw(t, "content")
 	s.Alpha = rapid.SampledFrom(alphas).Draw(t, "alpha")
+	if s.Content != "drawn" {
+		s.Content += rapid.SampledFrom([]string{"", "", "", "", "", "", "", "", "", "", "", "+grey", "+grey", "+g", "+rb"}).Draw(t, "tint")
+	}
 	seed := rapid.Uint64().Draw(t, "contentSeed")
 	if s.Content == "drawn" {
 		if s.W*s.H > 64 {
@@ -423,7 +426,32 @@ func (s *Img) SizeClass() string {
 }
 
 // RenderContent renders w*h NRGBA pixels of the given content and alpha class.
+// RenderContent renders a content class, optionally followed by a channel relation ("photo+grey": R=G=B everywhere;
+// "+g": only green carries information; "+rb": red equals blue): greyscale and single-channel pictures are common and
+// make the codecs' colour-decorrelation steps (subtract-green, cross-colour, chroma) degenerate.
 func RenderContent(w, h int, content, alpha string, seed uint64) []byte {
+	base, tint := content, ""
+	for i := 0; i < len(content); i++ {
+		if content[i] == '+' {
+			base, tint = content[:i], content[i+1:]
+			break
+		}
+	}
+	pix := renderContent(w, h, base, alpha, seed)
+	for i := 0; i+3 < len(pix); i += 4 {
+		switch tint {
+		case "grey":
+			pix[i], pix[i+2] = pix[i+1], pix[i+1]
+		case "g":
+			pix[i], pix[i+2] = 0, 0
+		case "rb":
+			pix[i+2] = pix[i]
+		}
+	}
+	return pix
+}
+
+func renderContent(w, h int, content, alpha string, seed uint64) []byte {
 	r := NewRng(seed)
 	pix := make([]byte, w*h*4)
 	palette := func(n int) [][3]byte {
